@@ -19,7 +19,7 @@ func init() {
 			"(P18-format) Format(t) = seqs + t + reset, FormatAndRestore adds only the previous style's sequences, seqs() concatenates only Styler fields and table entries, and the summary serialiser replaces each tag by a styled copy of that very match; (P18-width) table cells are measured as rune count of the ANSI-stripped text and padded by that measure; print --with-totals measures the unstyled value; " +
 			"(P18-nostyle-applied) every command embedding NoStyleArgs applies it before obtaining the serialiser and Apply installs the no_colour styler exactly when the flag is set; (P18-confine) Styler fields are only read by Styler's own methods. " +
 			"Not covered: NO_COLOR / configuration plumbing beyond NoStyleArgs.Apply, East-Asian display widths, a general taint analysis of styled strings into measuring sinks (tier B, not built).",
-		rules: []ruleFn{ruleP18Sgr, ruleP18Format, ruleP18Width, ruleP18Cells, ruleP18NoStyleApplied, ruleP18Confine},
+		rules: []ruleFn{ruleP18Sgr, ruleP18Format, ruleP18Width, ruleP18Cells, ruleP18PrintVerbatim, ruleP18NoStyleApplied, ruleP18Confine},
 	})
 }
 
